@@ -3,7 +3,7 @@
 import itertools
 import sys
 
-sys.path.insert(0, "/repo")
+sys.path.insert(0, __import__("os").environ.get("PVC_REPO", "/repo"))
 import ptera.overlay as ov  # noqa: E402
 
 
